@@ -23,7 +23,7 @@ TDo(ev) ==
     [] ev.e = "Accept"      -> EvAccept(a[1])
     [] ev.e = "Created"     -> EvCreated(a[1])
     [] ev.e = "Msg"         -> EvMsg(a[1])
-    [] ev.e = "Closed"      -> EvClosed(a[1])
+    [] ev.e = "Closed"      -> EvClosedRet(a[1], a[2])
     [] ev.e = "Destroyed"   -> EvDestroyed(a[1])
     [] ev.e = "Step"        -> EvStep(a[1], <<a[2], a[3], a[4]>>, a[5])
     [] ev.e = "Quiesce"     -> EvQuiesce(a[1])
